@@ -131,9 +131,13 @@ def sort_by_order(
     if not after and not before and len(groups) == 1:
         return next(iter(groups.values()))
     result = []
+    added = set()
 
     def add_to_result(elt: T):
         elt_name = name(elt)
+        if elt_name in added:
+            return
+        added.add(elt_name)
         for before_elt in before[elt_name]:
             add_to_result(before_elt)
         result.append(elt)
@@ -143,4 +147,7 @@ def sort_by_order(
     for value in sorted(groups):
         for elt in groups[value]:
             add_to_result(elt)
+    # elements attached to each other in a cycle are reached from no group
+    for elt in elts:
+        add_to_result(elt)
     return result
